@@ -249,6 +249,7 @@ func (co *ClipperOffset) executeInternal(delta float64) {
 	}
 
 	if math.Abs(delta) < 0.5 {
+		vEvent("offsetPassThrough", nil)
 		for _, group := range co.groupList {
 			for _, path := range group.inPaths {
 				*co.solution = append(*co.solution, path)
@@ -286,6 +287,7 @@ func (co *ClipperOffset) executeInternal(delta float64) {
 	c.reverseSolution = co.ReverseSolution != pathsReversed
 
 	c.addSubject(*co.solution)
+	vEvent("offsetUnion", []float64{float64(fillRule), vBool(c.reverseSolution), vBool(c.preserveCollinear)})
 
 	//if co.solutionTree != nil {
 	//	c.Execute(Union, fillRule, co.solutionTree)
@@ -309,6 +311,7 @@ func (co *ClipperOffset) doGroupOffset(group *Group) {
 	}
 
 	absDelta := math.Abs(co.groupDelta)
+	vEvent("offsetGroup", []float64{co.groupDelta, float64(group.endType), float64(group.joinType), float64(group.lowestPathIdx), vBool(group.pathsReversed)})
 
 	co.joinType = group.joinType
 	co.endType = group.endType
@@ -345,6 +348,7 @@ func (co *ClipperOffset) doGroupOffset(group *Group) {
 			}
 
 			pt := p[0]
+			vEvent("offsetPath", []float64{1, float64(group.endType)}, p...)
 			if group.endType == RoundET {
 				steps := int(math.Ceil(co.stepsPerRad * 2 * math.Pi))
 				co.pathOut = Ellipse64(pt, absDelta, absDelta, steps)
@@ -372,6 +376,7 @@ func (co *ClipperOffset) doGroupOffset(group *Group) {
 		}
 
 		co.buildNormals(p)
+		vEvent("offsetPath", []float64{float64(cnt), float64(co.endType)}, p...)
 		switch co.endType {
 		case Polygon:
 			co.offsetPolygon(group, p)
